@@ -200,6 +200,15 @@ fn main() {
             println!("after crash+reopen: {}", rows(&d, "SELECT id FROM t"));
             std::mem::forget(d);
         }
+        "d26" => {
+            db.execute("CREATE TABLE t (id BIGINT, v INT)").unwrap();
+            for i in 0..20 { db.execute(&format!("INSERT INTO t VALUES ({i}, {i})")).unwrap(); }
+            std::mem::forget(db);
+            let d = Database::open(&path, DBConfig::default()).unwrap();
+            println!("after 1st crash+reopen: {}", rows(&d, "SELECT COUNT(*) FROM t"));
+            std::mem::forget(d);
+            match Database::open(&path, DBConfig::default()) { Ok(d2) => { println!("after 2nd crash+reopen: {}", rows(&d2, "SELECT COUNT(*) FROM t")); std::mem::forget(d2); } Err(e) => println!("2nd open failed: {e}") }
+        }
         _ => println!("?"),
     }
 }
